@@ -38,10 +38,13 @@ type env struct {
 	scheds    [][][]string   // the same for every task manager of the case, in order of first appearance (nested runs, resumed runs)
 	collected map[string]int // node key -> tasks collected by any run loop of the case (resumed runs included)
 	resumes   int
-	pipes     []func() // closes the reader side of every Pipe the harness created (released after an aborted run)
+	seg1      int        // number of accounting events logged when the first interrupt was returned (-1: none)
+	seg1Trace int        // number of task-manager trace events at that moment
+	sched1    [][]string // schedule of the first segment of an interrupted run
+	pipes     []func()   // drains every Pipe the harness created (used after an aborted run)
 }
 
-func newEnv(c *Case) *env { return &env{c: c, brLog: map[[2]int][][]int{}} }
+func newEnv(c *Case) *env { return &env{c: c, brLog: map[[2]int][][]int{}, seg1: -1} }
 
 func (e *env) exec(idx int) {
 	e.mu.Lock()
@@ -55,15 +58,37 @@ func (e *env) addPipe(closeReader func()) {
 	e.mu.Unlock()
 }
 
-// releaseAll closes the reader side of every pipe of the case. Used only after a run that did not
-// complete (outside the property): its blocked producers would otherwise pile up in the process.
+// releaseAll drains every pipe of the case so that its producers run to their end. Used only
+// after a run that did not complete (outside the property): its blocked producers would otherwise
+// pile up in the process. Receiving never panics (closing a stream twice would).
 func (e *env) releaseAll() {
 	e.mu.Lock()
 	ps := e.pipes
 	e.pipes = nil
 	e.mu.Unlock()
+	var wg sync.WaitGroup
 	for _, f := range ps {
-		lib.Recover(f) // an already closed stream panics on the second close
+		wg.Add(1)
+		go func(f func()) {
+			defer wg.Done()
+			lib.Recover(f)
+		}(f)
+	}
+	done := make(chan struct{})
+	go func() { wg.Wait(); close(done) }()
+	select {
+	case <-done:
+	case <-time.After(2 * time.Second):
+	}
+}
+
+func drain[T any](sr *schema.StreamReader[T]) func() {
+	return func() {
+		for {
+			if _, err := sr.Recv(); err != nil {
+				return
+			}
+		}
 	}
 }
 
@@ -166,7 +191,7 @@ func keyedLambda[I, O any](e *env, idx int) *compose.Lambda {
 		return compose.StreamableLambda(func(ctx context.Context, in I) (*schema.StreamReader[O], error) {
 			e.exec(idx)
 			sr, sw := schema.Pipe[O](spec.Cap)
-			e.addPipe(sr.Close)
+			e.addPipe(drain(sr))
 			p := e.newProducer(name)
 			go produce(p, spec.Items, spec.Yield, func(i int) bool { return sw.Send(chunkOf[O](name, i), nil) }, sw.Close)
 			return sr, nil
@@ -206,7 +231,7 @@ func (t *streamTool) Info(context.Context) (*schema.ToolInfo, error) {
 
 func (t *streamTool) StreamableRun(_ context.Context, _ string, _ ...tool.Option) (*schema.StreamReader[string], error) {
 	sr, sw := schema.Pipe[string](t.cap)
-	t.e.addPipe(sr.Close)
+	t.e.addPipe(drain(sr))
 	p := t.e.newProducer(t.name)
 	go produce(p, t.items, t.yield, func(i int) bool { return sw.Send(fmt.Sprintf("%s.%d,", t.name, i), nil) }, sw.Close)
 	return sr, nil
@@ -264,7 +289,7 @@ func lambdaOf(e *env, idx int) *compose.Lambda {
 		return compose.TransformableLambda(func(ctx context.Context, in *schema.StreamReader[M]) (*schema.StreamReader[M], error) {
 			e.exec(idx)
 			sr, sw := schema.Pipe[M](spec.Cap)
-			e.addPipe(sr.Close)
+			e.addPipe(drain(sr))
 			p := e.newProducer(name)
 			go forward(p, in, sw, spec.Yield)
 			return sr, nil
@@ -635,6 +660,11 @@ func runCase(e *env) runOut {
 		if len(e.scheds) > 0 {
 			e.sched = e.scheds[0]
 		}
+		if e.seg1 >= 0 && e.seg1Trace <= len(evs) {
+			if s1 := schedulesOf(evs[:e.seg1Trace], c19Eager(e.c)); len(s1) > 0 {
+				e.sched1 = s1[0]
+			}
+		}
 		e.collected = map[string]int{}
 		for _, ev := range evs {
 			if ev.Kind == "recv" {
@@ -701,9 +731,34 @@ func callAndRead(e *env, r compose.Runnable[M, M]) runOut {
 	if interruptible {
 		opts = append(opts, compose.WithCheckPointID("cp"))
 	}
+	if c.Input == "collect" {
+		// Collect: the framework itself drains the output stream (concatenation) and returns a value
+		in, sw := schema.Pipe[M](c.InCap)
+		e.addPipe(drain(in))
+		p := e.newProducer("input")
+		go produce(p, c.InItems, 0, func(i int) bool { return sw.Send(chunkOf[M]("in", i), nil) }, sw.Close)
+		_, err = r.Collect(ctx, in, opts...)
+		for n := 0; err != nil && interruptible && n < 40; n++ {
+			if _, ok := compose.ExtractInterruptInfo(err); !ok {
+				break
+			}
+			e.mu.Lock()
+			if e.resumes == 0 {
+				e.seg1 = len(schema.VerifC19Snapshot())
+				e.seg1Trace = len(compose.VerifC03Events())
+			}
+			e.resumes++
+			e.mu.Unlock()
+			_, err = r.Collect(ctx, schema.StreamReaderFromArray([]M{{}}), opts...)
+		}
+		if err != nil {
+			return runOut{class: "run_err", msg: err.Error()}
+		}
+		return runOut{class: "ok", eof: true}
+	}
 	if c.Input == "stream" {
 		in, sw := schema.Pipe[M](c.InCap)
-		e.addPipe(in.Close)
+		e.addPipe(drain(in))
 		p := e.newProducer("input")
 		go produce(p, c.InItems, 0, func(i int) bool { return sw.Send(chunkOf[M]("in", i), nil) }, sw.Close)
 		sr, err = r.Transform(ctx, in, opts...)
@@ -716,6 +771,10 @@ func callAndRead(e *env, r compose.Runnable[M, M]) runOut {
 			break
 		}
 		e.mu.Lock()
+		if e.resumes == 0 {
+			e.seg1 = len(schema.VerifC19Snapshot())
+			e.seg1Trace = len(compose.VerifC03Events())
+		}
 		e.resumes++
 		e.mu.Unlock()
 		sr, err = r.Stream(ctx, M{}, opts...)
